@@ -22,7 +22,7 @@ func hx(b []byte) string {
 	return hex.EncodeToString(b)
 }
 
-var digits = regexp.MustCompile(`[0-9]+`)
+var digits = regexp.MustCompile(`\b[0-9a-f]*[0-9][0-9a-f]*\b`)
 
 // errClass strips the variable parts of an error message so that it names the failing input class.
 func errClass(err error) string {
